@@ -20,6 +20,7 @@ REPO = os.environ.get("PYTTB_REPO", "/repo")
 os.environ.setdefault("PYTTB_REPO", REPO)
 
 BASELINE_PATH = os.path.join(HERE, "contracts", "BASELINE_OBLIGATIONS.json")
+HINTS_PATH = os.path.join(HERE, "contracts", "SOLVER_HINTS.json")
 KNOWN_PATH = os.path.join(HERE, "KNOWN_FINDINGS.jsonl")
 # VERIF_OUT redirects evidence and replays (used by the self-tests, which run the checks against
 # scratch copies and must not overwrite the evidence of /repo)
@@ -138,7 +139,7 @@ def proof_stage(prop, plan, tier, registry):
             rep.bkey = f"{q}@{prov}"
             rep.tasks = {}
             rep.trusted.add("sympy 1.14 (simplification to zero) for derivative obligations" if "derivative" in os_[0]["name"] else
-                            ("assumed ownership contracts of NumPy primitives (which results are views / fresh, which calls write): pyvc/own.py tables" if ("#frame:" in os_[0]["name"] or "#noninterference:" in os_[0]["name"]) else "AST pattern obligations (no solver)"))
+                            ("assumed ownership contracts of NumPy primitives (which results are views / fresh, which calls write): pyvc/own.py tables" if ("#frame:" in os_[0]["name"] or "#noninterference:" in os_[0]["name"]) else ("formula obligations: sympy 1.14 decides algebraic equality of the assigned expression with the stated formula; non-arithmetic sub-expressions are atoms compared as source text; guard obligations (z3): x.norm() atoms are non-negative reals, tests that are not arithmetic comparisons are opaque Booleans, loops / early exits between a test and the assignment are ignored (only weakens the hypothesis)" if "#formula" in os_[0]["name"] else "AST pattern obligations (no solver)")))
             for o in os_:
                 if o["status"] in ("missing", "unsupported"):
                     rep.aborts.append(dict(case="-", reason=o.get("solver_output") or o["status"], line=o.get("line")))
@@ -156,19 +157,32 @@ def proof_stage(prop, plan, tier, registry):
                 jobs.append((name, smt, 2000, False))
             else:
                 jobs.append((name, smt, timeout_ms, True))
+    hints = json.load(open(HINTS_PATH)) if os.path.exists(HINTS_PATH) else {}
+    jobs = [j + ("cvc5",) if (j[3] and hints.get(norm_label(j[0])) == "cvc5") else j for j in jobs]
     res = solve_all(jobs)
     # anything left open gets a second, longer, less crowded attempt before a verdict is drawn
     # (keeps verdicts stable when the machine is busy)
     # (obligations recorded as open known findings are expected to stay open: no second attempt for them)
     _known_obl = {k.get("obligation") for k in load_known() if k.get("status") == "open" and k.get("obligation")}
-    retry = [(n, smt, 3 * tmo, cv) for (n, smt, tmo, cv) in jobs if cv and res.get(n, {}).get("result") not in ("unsat", "sat")
-             and norm_label(n) not in _known_obl]
-    if retry and len(retry) <= 24 and not os.environ.get("VERIF_NO_RETRY"):
-        res2 = solve_all(retry, workers=12)
-        for n, r in res2.items():
-            r["time"] = (r.get("time") or 0.0) + (res[n].get("time") or 0.0)
-            r["retried"] = True
-            res[n] = r
+    for factor, most, workers in ((3, 24, 16), (6, 8, 16)):
+        open_ = [j for j in jobs if j[3] and res.get(j[0], {}).get("result") not in ("unsat", "sat") and norm_label(j[0]) not in _known_obl]
+        if not open_ or len(open_) > most or os.environ.get("VERIF_NO_RETRY"):
+            break
+        # each open obligation: both solvers again with a longer limit, and z3 under two other random seeds
+        retry = []
+        for j in open_:
+            first = j[4] if len(j) > 4 else "z3"
+            retry.append((j[0], j[1], factor * j[2], True, first))
+            for seed in (11, 23):
+                retry.append((j[0] + "\x00%d" % seed, j[1], factor * j[2], False, "z3", seed))
+        res2 = solve_all(retry, workers=workers)
+        for j in open_:
+            n = j[0]
+            attempts = [res2[k] for k in (n, n + "\x0011", n + "\x0023") if k in res2]
+            spent = sum(r.get("time") or 0.0 for r in attempts)
+            best = next((r for r in attempts if r["result"] in ("unsat", "sat")), attempts[0])
+            best = dict(best, name=n, time=round(spent + (res[n].get("time") or 0.0), 3), retried=factor)
+            res[n] = best
     for rep in reports:
         if getattr(rep, "presolved", False):
             continue
@@ -228,11 +242,17 @@ def run_property(prop, tier, seed):
     inlined = set()
     funcs_ev = []
     failing = []  # (rep, label, status, sample obligation)
+    known_obls = []  # obligations failing by a recorded genuine defect
     sample_obls = []
     for rep in reports:
         labels = summarize_function(rep)
         base = baseline.get(getattr(rep, "bkey", rep.qual), {})
-        nf = len([o for o in rep.obligations if o["kind"] != "cover"])
+        # obligations that fail by a recorded genuine defect (open entry in KNOWN_FINDINGS.jsonl) are reported as
+        # KNOWN-FINDING lines and listed separately in the evidence; they are neither counted as discharged nor as part of
+        # what the proof-level claim covers
+        kf = [o for o in rep.obligations if o["kind"] != "cover" and o["status"] != "discharged" and known_match(known, "obligation", norm_label(o["name"]))]
+        known_obls += [o["name"] for o in kf]
+        nf = len([o for o in rep.obligations if o["kind"] != "cover"]) - len(kf)
         nd = len([o for o in rep.obligations if o["kind"] != "cover" and o["status"] == "discharged"])
         n_obl += nf
         n_dis += nd
@@ -402,8 +422,13 @@ def run_property(prop, tier, seed):
         rule="stand-in: each case is one enumerated input (shape x pattern x stored order x option); distinct = distinct JSON encodings; trivial cases (empty tensors) are counted because the properties name them. proof: one obligation per (function, case, path, clause).",
         samples=samples or [dict(note="no samples")],
         explanation=plan.get("explanation", "") + (
-            "" if proved_all else f" This run: {n_dis}/{n_obl} obligations discharged, {undecided} undecided, {errors} checker errors."),
+            (f" {len(known_obls)} further obligations fail by a recorded genuine defect (see known_finding_obligations) and are outside the counts." if known_obls else "") +
+            ("" if proved_all else f" This run: {n_dis}/{n_obl} obligations discharged, {undecided} undecided, {errors} checker errors.")),
         known_findings=known_hits,
+        known_finding_obligations=dict(
+            count=len(known_obls), names=sorted(known_obls)[:20],
+            note="obligations that FAIL because of a recorded genuine defect of the code (open entries of KNOWN_FINDINGS.jsonl): not discharged, "
+                 "not included in `obligations`/`discharged`; the property does not hold on those paths"),
         exhaustive=False,
     )
     ev = dict(
@@ -448,6 +473,7 @@ def rebaseline(props):
     from contracts.plan import PLAN
     registry = load_contracts()
     base = json.load(open(BASELINE_PATH)) if os.path.exists(BASELINE_PATH) else {}
+    hints = json.load(open(HINTS_PATH)) if os.path.exists(HINTS_PATH) else {}
     for prop in props or list(PLAN):
         plan = PLAN[prop]
         if not (plan.get("functions") or plan.get("extra")):
@@ -456,10 +482,22 @@ def rebaseline(props):
         for rep in reports:
             labels = summarize_function(rep)
             bk = getattr(rep, "bkey", rep.qual)
+            # which back end to try first next time (a performance hint only: both are still tried)
+            for o in rep.obligations:
+                if o["kind"] != "cover" and o.get("backend") in ("z3", "cvc5"):
+                    lab = norm_label(o["name"])
+                    if o["backend"] == "cvc5":
+                        hints[lab] = "cvc5"
+                    elif lab in hints and not any(x.get("backend") == "cvc5" for x in rep.obligations if norm_label(x["name"]) == lab):
+                        del hints[lab]
             base[bk] = {lab: "discharged" for lab, st in labels.items() if st == "discharged"}
             bad = {lab: st for lab, st in labels.items() if st != "discharged"}
             print(f"{bk}: {len(base[bk])} discharged labels; not discharged: {bad}; aborts: {len(rep.aborts)}")
+            for o in rep.obligations:
+                if o["kind"] != "cover" and o["status"] != "discharged":
+                    print(f"    {o['status']} {o.get('backend')} {o.get('time')}s {o['name']}: {(o.get('solver_output') or '')[:160]!r}")
     json.dump(base, open(BASELINE_PATH, "w"), indent=1, sort_keys=True)
+    json.dump(hints, open(HINTS_PATH, "w"), indent=1, sort_keys=True)
 
 
 def replay(path):
